@@ -22,7 +22,7 @@ ASSUMPTIONS = ["AXI-Lite masters: AMBA stability rules; bus-width aligned addres
                "AXI4 (full) bridges are driven with single-beat and INCR bursts of full bus width up to 4 beats (C10 covers burst expansion)",
                "widths scaled down where the design allows (8/16/32/64), small memories"]
 BOUNDS = {"quick": "BMC K=12..14 cycles from reset", "thorough": "BMC K=18 cycles from reset, ratios 2/4/8, base-address offsets"}
-OUTSIDE = "histories longer than K; unaligned AXI-Lite addresses; masters with several outstanding requests per direction"
+OUTSIDE = "histories longer than K; unaligned AXI-Lite addresses; data-level (shadow byte) obligations with several outstanding requests per direction (the protocol-level harnesses allow a free master: next request while a response is outstanding, both directions at once, early/late write data)"
 FUNCS = ["litex.soc.interconnect.axi.axi_lite_to_wishbone.AXILite2Wishbone", "litex.soc.interconnect.axi.axi_lite_to_wishbone.Wishbone2AXILite",
          "litex.soc.interconnect.axi.axi_lite.axi_lite_to_simple", "litex.soc.interconnect.axi.axi_lite.AXILiteSRAM",
          "litex.soc.interconnect.axi.axi_lite_to_csr.AXILite2CSR", "litex.soc.interconnect.axi.axi_lite._AXILiteDownConverterWrite",
